@@ -402,8 +402,9 @@ def sha_files(paths, extra=""):
 
 
 def build_cached(chk, name, srcs, lib, flags):
-    """compile each source to an object (-MMD), link; re-used only if the content of every dependency under
-    REPO / harness / generated code, the archive and the flags are unchanged (content hash, not mtimes)"""
+    """compile each source to an object (-MMD) and link with the current archive; the objects are re-used only if
+    the content of every dependency under REPO / harness / generated code and the flags are unchanged (content
+    hash, not mtimes); the link step runs every time"""
     exe = os.path.join(BUILD, "bin", name)
     stamp = exe + ".stamp"
     os.makedirs(os.path.dirname(exe), exist_ok=True)
@@ -418,36 +419,36 @@ def build_cached(chk, name, srcs, lib, flags):
                 out.append(d_)
         return sorted(set(out))
 
-    if os.path.exists(exe) and os.path.exists(stamp):
+    objs = ["%s.%d.o" % (exe, i) for i in range(len(srcs))]
+    fresh = False
+    if os.path.exists(stamp) and all(os.path.exists(o) for o in objs):
         try:
             st = json.load(open(stamp))
-            deps = relevant(st["deps"], st["repo"])
-            if st["hash"] == sha_files(deps + [lib], key):
-                return exe
+            fresh = st["hash"] == sha_files(relevant(st["deps"], st["repo"]), key)
         except (ValueError, KeyError, OSError):
-            pass
-    objs, alldeps, procs = [], [], []
+            fresh = False
+    alldeps, procs = [], []
     import subprocess
-    for i, src in enumerate(srcs):
-        o = "%s.%d.o" % (exe, i)
-        objs.append(o)
-        cmd = [vlib.CXX] + vlib.CXXFLAGS + ["-I" + os.path.join(VERIF, "harness")] + list(flags) + \
-              ["-MMD", "-MF", o + ".d", "-c", src, "-o", o]
-        procs.append((src, o, subprocess.Popen(cmd, stdout=subprocess.PIPE, stderr=subprocess.PIPE, text=True)))
-    for src, o, pr in procs:
-        out, err = pr.communicate()
-        if pr.returncode != 0:
-            chk.broke("harness", "compile %s (%s)" % (os.path.basename(src), name), err[-3000:])
-            return None
-        txt = open(o + ".d").read().replace("\\\n", " ")
-        alldeps += [os.path.abspath(x) for x in txt.split(":", 1)[1].split()]
+    if not fresh:
+        for src, o in zip(srcs, objs):
+            cmd = [vlib.CXX] + vlib.CXXFLAGS + ["-I" + os.path.join(VERIF, "harness")] + list(flags) + \
+                  ["-MMD", "-MF", o + ".d", "-c", src, "-o", o]
+            procs.append((src, o, subprocess.Popen(cmd, stdout=subprocess.PIPE, stderr=subprocess.PIPE, text=True)))
+        for src, o, pr in procs:
+            out, err = pr.communicate()
+            if pr.returncode != 0:
+                chk.broke("harness", "compile %s (%s)" % (os.path.basename(src), name), err[-3000:])
+                return None
+            txt = open(o + ".d").read().replace("\\\n", " ")
+            alldeps += [os.path.abspath(x) for x in txt.split(":", 1)[1].split()]
+        deps = relevant(alldeps, None)
+        json.dump({"repo": vlib.REPO, "deps": deps, "hash": sha_files(deps, key)}, open(stamp, "w"))
+    # the archive of /repo/src changes whenever any source of the repository does: always link against the current one
     link_flags = [f for f in flags if f.startswith("-fsanitize")]
     rc, out, err = sh([vlib.CXX] + objs + [lib, "-o", exe] + link_flags + vlib.LDFLAGS, timeout=600)
     if rc != 0:
         chk.broke("harness", "link " + name, err[-3000:])
         return None
-    deps = relevant(alldeps, None)
-    json.dump({"repo": vlib.REPO, "deps": deps, "hash": sha_files(deps + [lib], key)}, open(stamp, "w"))
     return exe
 
 
@@ -813,7 +814,7 @@ def main(argv):
         if seen_probe.get(key, 0) >= (1 if not thorough else 3) or not impl:
             continue
         seen_probe[key] = seen_probe.get(key, 0) + 1
-        rc, out, err = sh([impl], input=line + "\n", timeout=60)
+        rc, out, err = sh([impl], input=line + "\n", timeout=60, env=dict(os.environ, C11_ALARM="4"))
         returned = rc == 0 and (" res=" in out or " ser=" in out)
         if why == "unlimited":
             rep = {"kind": "V", "type": c["type"], "value": c["val"]}
@@ -837,7 +838,7 @@ def main(argv):
             if not returned:
                 chk.violate("overlong-length-prefix-never-terminates",
                             "parsing %s as %s never returns (loop without progress until memory is exhausted or the "
-                            "8 s alarm fires: rc=%d %s)" % (c["hex"][:80], c["type"], rc, err.strip()[-100:]), rep)
+                            "alarm fires: rc=%d %s)" % (c["hex"][:80], c["type"], rc, err.strip()[-100:]), rep)
             else:
                 chk.broke("correspondence", "model predicts no return, implementation returns", line[:300] + "\n" + out[:300])
     chk.notes["probes"] = {"%s/%s" % k: v for k, v in seen_probe.items()}
